@@ -17,16 +17,16 @@ type c04File struct {
 }
 
 type propC04 struct {
-	seed   uint64
-	tier   string
-	files  []c04File
-	cum    []int
-	npat   int
-	nFlip  int
-	nHdr   int
-	nTgt   int
-	count  int
-	preOK  map[int]bool
+	seed  uint64
+	tier  string
+	files []c04File
+	cum   []int
+	npat  int
+	nFlip int
+	nHdr  int
+	nTgt  int
+	count int
+	preOK map[int]bool
 }
 
 func init() { register(&propC04{}) }
@@ -35,7 +35,7 @@ func (p *propC04) ID() string     { return "C04" }
 func (p *propC04) Engine() string { return "rx" }
 func (p *propC04) Level() string  { return "fault_enumeration" }
 func (p *propC04) Rule() string {
-	return "enumeration of at-rest flip faults: for every pool file (corpus files and model streams that Decode accepts, output of the real Encode; 12- and 14-byte headers, stored header CRC correct or 0) x every start bit such that the burst avoids header byte 0 and bytes 4-7 x every burst length 1..16 x patterns with first and last bit set (quick: 4 per length; thorough: all 2^(L-2) on files <= 200 B, 64 on the rest), Decode and CheckIntegrity must both reject; plus the header verdict matrix: generated 14-byte headers (random protocol/profile version, stored CRC correct / 0 / one bit off / random) in an otherwise valid file through CheckIntegrity(headerOnly), DecodeHeader, Decode, Header.CheckIntegrity. " +
+	return "enumeration of at-rest flip faults: for every pool file (corpus files and model streams that Decode accepts, output of the real Encode; 12- and 14-byte headers, stored header CRC correct or 0) x every start bit such that the burst avoids header byte 0 and bytes 4-7 x every burst length 1..16 x patterns with first and last bit set (quick: 4 per length; thorough: all 2^(L-2) on files <= 200 B, 16 on the rest, files up to 2100 B), Decode and CheckIntegrity must both reject; plus the header verdict matrix: generated 14-byte headers (random protocol/profile version, stored CRC correct / 0 / one bit off / random) in an otherwise valid file through CheckIntegrity(headerOnly), DecodeHeader, Decode, Header.CheckIntegrity. " +
 		"key = (entry point, source kind, structural class of the first flipped bit, burst length); non-trivial when the flipped bits were consumed by the entry point"
 }
 func (p *propC04) Assumptions() []string {
@@ -56,8 +56,8 @@ func (p *propC04) Prepare(seed uint64, tier string) int {
 	maxCorpus, nModel, maxModel := 600, 8, 600
 	p.npat = 4
 	if base == "thorough" {
-		maxCorpus, nModel, maxModel = 4096, 30, 1500
-		p.npat = 64
+		maxCorpus, nModel, maxModel = 2100, 20, 1200
+		p.npat = 16
 	}
 	add := func(name string, med Medium, b []byte) {
 		f := parseFrame(b, 0)
@@ -79,6 +79,20 @@ func (p *propC04) Prepare(seed uint64, tier string) int {
 			continue
 		}
 		add(fmt.Sprintf("model%d", i), Medium{Records: rs}, b)
+	}
+	// a stream whose data records carry 70-110 bytes of developer data (paths that
+	// skip rather than parse must still feed the checksum)
+	{
+		r := NewRng(seed, "C04/dev", 0)
+		n := r.Range(70, 110)
+		rs := &RecStream{Header: HeaderSpec{Size: 14, Proto: 0x20, Profile: 2115, HCRC: "ok"}, Ops: []Op{
+			{Def: &DefOp{Local: 0, Arch: "le", Global: 0, Fields: [][3]int{{0, 1, 0}}}},
+			{Data: &DataOp{Local: 0, Bytes: "04"}},
+			{Def: &DefOp{Local: 1, Arch: "le", Global: 20, Fields: [][3]int{{3, 1, 2}}, Dev: [][3]int{{0, n, 0}, {1, 4, 0}}}},
+			{Data: &DataOp{Local: 1, Bytes: "50" + hexs(r.Bytes(n+4))}},
+			{Data: &DataOp{Local: 1, Bytes: "51" + hexs(r.Bytes(n+4))}},
+		}}
+		add("devdata", Medium{Records: rs}, rs.Build())
 	}
 	// output of the real Encode for a few model Files
 	for i := 0; i < nModel/2; i++ {
